@@ -15,6 +15,7 @@ BASELINE = "C12"
 REQUIRED_COUNTERS = ["scans", "documents_compared", "single_rule_scans"]
 ASSUMPTIONS = ["documents on which a scan ends in a tokenization or plugin error are skipped (C01/C07), counted"]
 LIMIT = {"Z1": 5097, "Z3": 5000, "Z4": 3000, "Z7": 8000}
+N_PRAGMA = 3000  # Z7 documents with a pragma line (naming rules that fire) put on top: suppression must not depend on the rule set
 
 
 def universe_hash():
@@ -23,6 +24,12 @@ def universe_hash():
 
 def plan(tier, seed, complete=False):
     items, zinfo = PL.plan_docs(tier, seed, complete, quick={"Z1": 300, "Z3": 180, "Z4": 100, "Z7": 220}, z1_all=False, limit=LIMIT, zones=("Z1", "Z3", "Z4", "Z7"), force_b=True)
+    if complete or tier == "thorough":
+        pidx = list(range(N_PRAGMA))
+    else:
+        pidx = U.pick("Z7", seed + 12, 120, 0, N_PRAGMA)
+    items = items + [f"PR:{i}" for i in pidx]
+    zinfo["pragma-topped Z7 documents"] = {"universe": N_PRAGMA, "run": len(pidx)}
     return {
         "items": items, "zones": zinfo, "exhaustive": False,
         "rule": "documents of the frozen universes (raw corpus, prefixes of Z3/Z4) x {all rules, each rule alone, default set, default minus two index-chosen rules}; "
@@ -42,7 +49,16 @@ def run_items(items, job):
     dflt = app.default_enabled()
     R = PL.Result()
     for it in items:
-        key, doc = PL.item_doc(it)
+        if isinstance(it, str) and it.startswith("PR:"):
+            key = it
+            n = int(it.split(":")[1])
+            body = U.doc("Z7", 40000 + n)
+            if n % 2:
+                body = body.rstrip("\n")  # MD047 fires on the last line
+            nl = body.count("\n") + 2
+            doc = f"<!-- pyml disable-num-lines {nl} md047,md041,md022,md009,md013-->\n" + body
+        else:
+            key, doc = PL.item_doc(it)
         R.evals += 1
         o = app.scan_text(doc, only=allr)
         R.count("scans")
